@@ -231,6 +231,8 @@ type vcSrvOpts struct {
 	OnDisconnect func(ctx context.Context, rec *vcConnRec)
 	NoOnRequest  bool
 	Extra        []Option
+	// NoDefaultTimeouts: the scenario sets and judges timeouts itself
+	NoDefaultTimeouts bool
 }
 
 type vcSrv struct {
@@ -244,6 +246,8 @@ type vcSrv struct {
 	recs     sync.Map // connection id -> *vcConnRec
 	nacc     int32
 }
+
+var vcSrvSeq uint64
 
 type vcCtxKey struct{}
 
@@ -310,6 +314,14 @@ func vcStartServer(o vcSrvOpts) (*vcSrv, error) {
 		}))
 	}
 	opts = append(opts, o.Extra...)
+	// generous timeouts that never expire within a trial switch the timer paths on: every third
+	// server gets read/write timeouts, every fourth an idle timeout
+	switch n := atomic.AddUint64(&vcSrvSeq, 1); {
+	case n%3 == 0 && !o.NoDefaultTimeouts:
+		opts = append(opts, WithReadTimeout(40*time.Second), WithWriteTimeout(40*time.Second))
+	case n%4 == 0 && !o.NoDefaultTimeouts:
+		opts = append(opts, WithIdleTimeout(3*time.Minute))
+	}
 	var onReq OnRequest
 	if !o.NoOnRequest {
 		onReq = func(ctx context.Context, c Connection) error {
@@ -499,6 +511,12 @@ func TestVerifConn(t *testing.T) {
 	watchdog := time.Duration(vfEnvInt("VERIF_WATCHDOG_S", 60)) * time.Second
 	if n := vfEnvInt("VERIF_LOOPS", 0); n > 0 {
 		SetNumLoops(n)
+	}
+	if n := vfEnvInt("VERIF_LBCAP", 0); n > 0 {
+		LinkBufferCap = n
+	}
+	if vfEnvInt("VERIF_LB_RANDOM", 0) == 1 {
+		SetLoadBalance(Random)
 	}
 	logf, _ := ioutil.TempFile("", "vfnetpoll-log")
 	if logf != nil {
